@@ -3,6 +3,11 @@
    sequence_reset, handle_outbound_reject, stop, do_state_change, the catch clauses of process, SessionID::same_*_comp_id,
    the "34=" scan + fast_atoi on "34=ddddddd<SOH>".  Oracle: the statement of C19. */
 #include "sess_in_world.h"
+#ifdef FACTORY_NULL
+#define REACH_MSG() ((void)0)      /* no message object exists in this variant */
+#else
+#define REACH_MSG() VF_REACH()
+#endif
 #ifndef TLEN
 #define TLEN 1
 #endif
@@ -50,20 +55,18 @@ int main(void)
   m_has_nsn = nondet_bool(); m_nsn = nondet_i32(); VF_ASSUME(m_nsn >= 0 && m_nsn < 10000000);
   m_has_begin = nondet_bool(); m_has_end = nondet_bool(); m_begin = nondet_i32(); m_end = nondet_i32(); VF_ASSUME(m_begin >= 0 && m_begin < 10000000 && m_end >= 0 && m_end < 10000000);
   m_has_trid = nondet_bool(); m_trid_n = 1; m_trid[0] = nondet_u8();
-  m_decode_fail = nondet_u8(); VF_ASSUME(m_decode_fail <= 5);
+  m_decode_fail = nondet_u8(); VF_ASSUME(m_decode_fail <= 5 && m_decode_fail != 2);     /* kind 2 (a decoding failure with force_logoff): no such failure exists in Message::factory; harness C19_step_force covers the clause abstractly */
 #ifdef ONLY_DECODE
   m_decode_fail = ONLY_DECODE;
 #endif
 #ifdef FACTORY_NULL
   m_factory_null = 1;
 #endif
-  uint8_t d[ND]; for (int i = 0; i < ND; i++) { d[i] = nondet_u8(); VF_ASSUME(d[i] >= '0' && d[i] <= '9'); }
-  VF_ASSUME(digits_value(d) <= 0xffffffffULL);                   /* MsgSeqNum: any unsigned 32-bit value, as 10 decimal digits */
-  uint32_t seq = (uint32_t)digits_value(d);
+  uint32_t seq = nondet_u32();                                   /* MsgSeqNum: any unsigned 32-bit value */
 #ifdef SEQ_WINDOW
   VF_ASSUME(SEQ_WINDOW);
 #endif
-  uint8_t raw[16]; uint32_t rawn = raw_seq(raw, d);
+  uint8_t raw[12]; uint32_t rawn = raw_abs(raw, seq);
   cx_state = state; cx_expected = expected; cx_seq = seq; cx_type0 = type[0]; cx_type1 = TLEN > 1 ? type[1] : 0; cx_decode_fail = m_decode_fail; cx_factory_null = m_factory_null;
   cx_has_pd = m_has_pd; cx_pd = m_pd; cx_has_ost = m_has_ost; cx_st = m_st; cx_ost = m_ost; cx_enforce = enforce; cx_silent = silent; cx_reliable = reliable; cx_active = active;
   for (int i = 0; i < 2; i++) { cx_sid_s[i] = sid_s[i]; cx_sid_t[i] = sid_t[i]; cx_msg_s[i] = msg_s[i]; cx_msg_t[i] = msg_t[i]; }
@@ -95,10 +98,10 @@ int main(void)
     VF_ASSERT(in_seq, "C19: delivered only if MsgSeqNum == expected, or lower with PossDupFlag=Y and OrigSendingTime <= SendingTime");
     VF_ASSERT(!compid_bad, "C19: not delivered with wrong CompIDs when enforcement is on");
     VF_ASSERT(deliver_seq == seq, "C19: the application sees the message's own MsgSeqNum");
-    VF_REACH();
+    REACH_MSG();
   }
   /* progress direction (keeps the check honest): an in-sequence, well-formed application message of an active session is delivered */
-  if (decoded && is_app && in_seq && !compid_bad && active) { VF_ASSERT(n_deliver == 1 && !logout && !stopped, "C19: an in-sequence application message is delivered and the session continues"); VF_REACH(); }
+  if (decoded && is_app && in_seq && !compid_bad && active) { VF_ASSERT(n_deliver == 1 && !logout && !stopped, "C19: an in-sequence application message is delivered and the session continues"); REACH_MSG(); }
   if (decoded && !seqreset && !compid_bad && (is_app ? active : 1)) {
     /* (2) too high: no delivery, ResendRequest from the expected number */
     if (seq > expected) {
@@ -109,32 +112,32 @@ int main(void)
       if (state == st_continuous)
 #endif
         VF_ASSERT(resend == 1 && resend_begin == expected, "C19: a message above the expected number triggers a ResendRequest starting at the expected number");
-      VF_REACH();
+      REACH_MSG();
     }
     /* (3) too low without valid PossDup: Logout, no delivery, session ends */
     if (seq < expected && !valid_dup) {
       VF_ASSERT(n_deliver == 0, "C19: a message below the expected number without valid PossDup is not delivered");
       VF_ASSERT(stopped, "C19: a message below the expected number without PossDupFlag ends the session");
 #ifndef KF_NO_LOGOUT_ON_SEQ_ERROR
-      VF_ASSERT(logout == 1, "C19: a message below the expected number without PossDupFlag is answered with a Logout");
+      if (!silent) VF_ASSERT(logout == 1, "C19: a message below the expected number without PossDupFlag is answered with a Logout (silent_disconnect off)");
 #endif
-      VF_REACH();
+      REACH_MSG();
     }
   }
   /* (3b) wrong CompIDs with enforcement on */
   if (decoded && compid_bad && !seqreset && (is_app ? active : 1)) {
     VF_ASSERT(n_deliver == 0 && stopped, "C19: wrong CompIDs with enforcement on: no delivery and the session ends");
 #ifndef KF_NO_LOGOUT_ON_SEQ_ERROR
-    VF_ASSERT(logout == 1, "C19: wrong CompIDs with enforcement on are answered with a Logout");
+    if (!silent) VF_ASSERT(logout == 1, "C19: wrong CompIDs with enforcement on are answered with a Logout (silent_disconnect off)");
 #endif
-    VF_REACH();
+    REACH_MSG();
   }
   /* (4) decoding failure: never delivered; Reject unless it forces logout */
   if (m_decode_fail) {
     VF_ASSERT(n_deliver == 0, "C19: a message that fails decoding is never delivered");
     if (m_decode_fail == 1 || m_decode_fail == 3 || m_decode_fail == 4) VF_ASSERT(reject == 1 && !stopped, "C19: a non-fatal decoding failure is answered with a Reject");
     if (m_decode_fail == 2) VF_ASSERT(stopped && reject == 0, "C19: a decoding failure that forces logout ends the session");
-    VF_REACH();
+    REACH_MSG();
   }
   if (!decoded) VF_ASSERT(n_deliver == 0, "C19: nothing is delivered without a decoded message");
   VF_REACH();
